@@ -11,7 +11,8 @@ pub struct Ty {
     pub family: String,
     pub dt: DataType,
     pub nullable: bool,
-    /// member of the quick-tier core grid
+    /// member of the DESIGN T_core grid (informational)
+    #[allow(dead_code)]
     pub core: bool,
 }
 
